@@ -29,10 +29,10 @@ var (
 
 type emptyCtx struct{}
 
-func (emptyCtx) Deadline() (time.Time, bool)         { return time.Time{}, false }
-func (emptyCtx) Done() *rt.Chan[struct{}]            { return nil }
-func (emptyCtx) Err() error                          { return nil }
-func (emptyCtx) Value(key interface{}) interface{}   { return nil }
+func (emptyCtx) Deadline() (time.Time, bool)       { return time.Time{}, false }
+func (emptyCtx) Done() *rt.Chan[struct{}]          { return nil }
+func (emptyCtx) Err() error                        { return nil }
+func (emptyCtx) Value(key interface{}) interface{} { return nil }
 
 var background = emptyCtx{}
 
